@@ -185,10 +185,9 @@ class Ledger:
             return t == coll
         lens = find_terms(b, tb, lambda x: (x[0] == 'call' and call_name(x) == 'len' and same_coll(x[2][0])) or (x[0] == 'len' and same_coll(x[1])))
         empt = find_terms(b, tb, lambda x: x[0] == 'call' and call_name(x) == 'is_empty' and same_coll(x[2][0]))
-        if not lens and not empt:
-            return None
         for n in range(0, need):
             env = {l: n for l in lens}
+            env[('len', coll)] = n
             env.update({e: (n == 0) for e in empt})
             if bi in reach_under(b, tb, env):
                 return None
